@@ -1,4 +1,5 @@
 import inspect
+import re
 
 from xlcalculator.xlfunctions import (
     xl,
@@ -35,6 +36,8 @@ INFIX_OP_TO_FUNC = {
 }
 
 MAX_EMPTY = 100
+
+BOUNDED_RANGE_RE = re.compile(r'^.*![A-Za-z]+[0-9]+:[A-Za-z]+[0-9]+$', re.S)
 
 
 class EvalContext:
@@ -148,7 +151,18 @@ class RangeNode(OperandNode):
     def eval(self, context):
         addr = self.full_address(context)
 
+        if addr in context.ranges and BOUNDED_RANGE_RE.match(addr):
+            # A rectangular range denotes every one of its cells, however
+            # many of them are empty.
+            range_cells = [
+                [context.eval_cell(col_addr) for col_addr in range_row]
+                for range_row in context.ranges[addr].cells
+            ]
+            context.ranges[addr].value = data = func_xltypes.Array(range_cells)
+            return data
+
         if addr in context.ranges:
+            # Whole rows or columns: stop after a long run of empty cells.
             empty_row = 0
             empty_col = 0
             range_cells = []
